@@ -534,8 +534,9 @@ func init() {
 			return f[1] + ":" + clause
 		},
 		Nontrivial: func(line, out string) bool { return true },
-		Rule:       "scenario scripts on the real Conn/Channel over the in-memory transport, each call under a 1.5 s watchdog: receives with a cancelled call/connection context (0..5 queued, 0..3 arriving packages, NextPackage and NextPackageUntil), sends with a cancelled context (lengths around the packet body size) followed by a live send, every call after Close, double Close, Conn.Close with 0..3 channels, Close with an abandoned response of capacity-2..capacity+8 packages, reader exit after 0..10 unconsumed read errors",
+		Rule:       "scenario scripts on the real Conn/Channel over the in-memory transport, each call under a 1.5 s watchdog: receives with a cancelled call/connection context (0..5 queued, 0..3 arriving packages, NextPackage and NextPackageUntil), sends with a cancelled context (lengths around the packet body size) followed by a live send, sends whose caller's / connection's context is cancelled while packet k of the message is written (every k), every call after Close, double Close, Conn.Close with 0..3 channels, Close with an abandoned response of capacity-2..capacity+8 packages, reader exit after 0..10 unconsumed read errors",
 		Serial:     true,
+		Timed:      true, // answers depend on a 1.5 s watchdog: a failing case is re-run alone before it counts
 		NoShrink:   true,
 		Timeout:    20 * time.Second,
 		Assumptions: []string{"wall-clock promptness is observed with a 1.5 s watchdog / 0.5 s slowness bound; the Lean model counts steps", "Go's select picks any ready case"},
